@@ -613,15 +613,31 @@ func bodySMT(t *Term, bv bool) string {
 	return sb.String()
 }
 
-// String renders a term as a tree (for samples / debugging; may be large).
+// String renders a term as a tree, truncated to a character budget (DAGs can be exponential as trees).
 func (t *Term) String() string {
+	var sb strings.Builder
+	budget := 400
+	t.render(&sb, &budget)
+	if budget <= 0 {
+		sb.WriteString("...")
+	}
+	return sb.String()
+}
+
+func (t *Term) render(sb *strings.Builder, budget *int) {
+	if *budget <= 0 {
+		return
+	}
 	if s := leafSMT(t, false); s != "" {
-		return s
+		sb.WriteString(s)
+		*budget -= len(s)
+		return
 	}
 	if t.isInf() {
-		return t.op
+		sb.WriteString(t.op)
+		*budget -= 4
+		return
 	}
-	var sb strings.Builder
 	sb.WriteByte('(')
 	if t.op == "uf" {
 		sb.WriteString(t.name)
@@ -630,18 +646,15 @@ func (t *Term) String() string {
 	} else {
 		sb.WriteString(t.op)
 	}
+	*budget -= 4
 	for _, a := range t.args {
+		if *budget <= 0 {
+			break
+		}
 		sb.WriteByte(' ')
-		sb.WriteString(a.String())
+		a.render(sb, budget)
 	}
 	sb.WriteByte(')')
-	return sb.String()
 }
 
-func (t *Term) Short() string {
-	s := t.String()
-	if len(s) > 300 {
-		return s[:300] + "..."
-	}
-	return s
-}
+func (t *Term) Short() string { return t.String() }
